@@ -1,6 +1,8 @@
 package main
 
 import (
+	"encoding/hex"
+	"encoding/json"
 	"errors"
 	"fmt"
 	"io/fs"
@@ -8,6 +10,7 @@ import (
 	"path/filepath"
 	"sort"
 	"strings"
+	"unicode/utf8"
 
 	"github.com/avfs/avfs"
 
@@ -65,6 +68,54 @@ type query struct {
 	Fam  string   `json:"fam,omitempty"` // WalkDir callback family: none|prop|skipdir|skipall|err
 	Idx  int      `json:"idx,omitempty"` // visit index at which the callback acts
 	CbAt string   `json:"cb_at,omitempty"`
+}
+
+// queryJSON: arguments that are not valid UTF-8 travel in hexadecimal (see entJSON).
+type queryJSON struct {
+	Func    string   `json:"func"`
+	Arg     string   `json:"arg"`
+	ArgHex  string   `json:"arg_hex,omitempty"`
+	Segs    []string `json:"segs,omitempty"`
+	SegsHex []string `json:"segs_hex,omitempty"`
+	Rel     bool     `json:"rel,omitempty"`
+	Fam     string   `json:"fam,omitempty"`
+	Idx     int      `json:"idx,omitempty"`
+	CbAt    string   `json:"cb_at,omitempty"`
+}
+
+func (q query) MarshalJSON() ([]byte, error) {
+	j := queryJSON{Func: q.Func, Rel: q.Rel, Fam: q.Fam, Idx: q.Idx, CbAt: q.CbAt}
+	j.Arg, j.ArgHex = toJSONString(q.Arg)
+
+	for _, s := range q.Segs {
+		t, h := toJSONString(s)
+		j.Segs = append(j.Segs, t)
+
+		if h != "" && j.SegsHex == nil {
+			for _, s := range q.Segs {
+				j.SegsHex = append(j.SegsHex, hex.EncodeToString([]byte(s)))
+			}
+		}
+	}
+
+	return json.Marshal(j)
+}
+
+func (q *query) UnmarshalJSON(b []byte) error {
+	var j queryJSON
+	if err := json.Unmarshal(b, &j); err != nil {
+		return err
+	}
+
+	*q = query{Func: j.Func, Arg: fromJSONString(j.Arg, j.ArgHex), Segs: j.Segs, Rel: j.Rel, Fam: j.Fam, Idx: j.Idx, CbAt: j.CbAt}
+
+	if len(j.SegsHex) == len(j.Segs) {
+		for i := range j.Segs {
+			q.Segs[i] = fromJSONString(j.Segs[i], j.SegsHex[i])
+		}
+	}
+
+	return nil
 }
 
 // outcome of a query on one side.
@@ -628,10 +679,70 @@ var segClass = map[string]string{
 	`\a`: "esc", "[a-": "bad", "": "empty",
 }
 
+// The segments of the name-shape trees: "*" and every name as a literal
+// prefix followed by each tail.
+var shapeTails = []string{"", "*", "?", "[^b]", "?*"}
+
+var shapeTailClass = map[string]string{"": "", "*": "-star", "?": "-qm", "[^b]": "-negclass", "?*": "-qm-star"}
+
+func (u universe) shapeSegs() []string {
+	segs := []string{"*"}
+
+	for _, n := range u.ShapeNames {
+		for _, t := range shapeTails {
+			segs = append(segs, n+t)
+		}
+	}
+
+	return segs
+}
+
+// contClass names what follows the first byte of a name (or of the literal
+// prefix of a segment): the edge of the byte ranges it stands for.
+func contClass(name string) string {
+	if len(name) < 2 {
+		return "none"
+	}
+
+	switch c := name[1]; {
+	case c == 0x7e:
+		return "7e"
+	case c == 0x7f:
+		return "7f"
+	case c < 0x80:
+		return "ascii"
+	case c == 0xff:
+		return "ff"
+	}
+
+	_, w := utf8.DecodeRuneInString(name[1:])
+
+	return fmt.Sprintf("%d-byte-rune", w)
+}
+
+// segClassOf classifies a pattern segment for signatures.
+func segClassOf(s string) string {
+	if c, ok := segClass[s]; ok {
+		return c
+	}
+
+	i := strings.IndexAny(s, `*?[\`)
+	if i < 0 {
+		i = len(s)
+	}
+
+	tail, ok := shapeTailClass[s[i:]]
+	if !ok {
+		tail = "-other"
+	}
+
+	return "lit+" + contClass(s[:i]) + tail
+}
+
 func patClass(q query) string {
 	var c []string
 	for _, s := range q.Segs {
-		c = append(c, segClass[s])
+		c = append(c, segClassOf(s))
 	}
 
 	return relName(q.Rel) + ":" + strings.Join(c, "/")
@@ -706,9 +817,86 @@ type qres struct {
 	Out outcome
 }
 
+// querySet is what is asked about one tree. Paths are relative to R.
+type querySet struct {
+	Pats      [][]string // Glob: patterns as segments, asked below R and relative to it
+	Dirs      []string   // ReadDir: paths below R (R itself and a missing path are always asked)
+	RelDirs   []string   // ReadDir: relative arguments
+	Roots     []string   // WalkDir: paths below R; all that exist and the first that does not (R and a missing path are always walked)
+	RelRoots  []string   // WalkDir: relative roots
+	Helpers   []string   // helpers: paths below R
+	HelperArg []string   // helpers: further arguments, verbatim
+}
+
+// plainQueries: the queries of the plain and the mode trees, over the names of
+// the universe.
+func (u universe) plainQueries() querySet {
+	return querySet{
+		Pats:      patterns(u.MaxSeg),
+		Dirs:      candidatePaths(u, 3),
+		RelDirs:   []string{".", "a", "a/b", ""},
+		Roots:     candidatePaths(u, 2),
+		RelRoots:  []string{".", "a"},
+		Helpers:   candidatePaths(u, 3),
+		HelperArg: []string{"$R", "$R/nope", "$R/nope/x", ".", "a", "a/b", ""},
+	}
+}
+
+// shapeQueries: the queries of a name-shape tree. Every segment of the shape
+// alphabet alone; on a tree with directories also in front of and behind a
+// second segment; ReadDir, WalkDir and the helpers on every path of the tree.
+func (u universe) shapeQueries(es []ent) querySet {
+	segs := u.shapeSegs()
+
+	var pats [][]string
+
+	for _, s := range segs {
+		pats = append(pats, []string{s})
+	}
+
+	if hasDir(es) {
+		seg2 := u.ShapeSeg2
+		if seg2 == nil {
+			seg2 = segs
+		}
+
+		seen := map[string]bool{}
+
+		add := func(a, b string) {
+			if k := a + "/" + b; !seen[k] {
+				seen[k] = true
+				pats = append(pats, []string{a, b})
+			}
+		}
+
+		for _, s := range segs {
+			for _, t := range seg2 {
+				add(s, t)
+			}
+		}
+
+		for _, s := range segs {
+			add("*", s)
+		}
+	}
+
+	paths := treePaths(es)
+	first := es[0].Name
+
+	return querySet{
+		Pats:      pats,
+		Dirs:      paths,
+		RelDirs:   []string{".", first},
+		Roots:     paths,
+		RelRoots:  []string{".", first},
+		Helpers:   paths,
+		HelperArg: []string{"$R", "$R/nope", ".", first},
+	}
+}
+
 // oraclePass generates every query for the tree currently materialised at R
 // (cwd = R) and evaluates it with path/filepath and os.
-func oraclePass(R string, u universe) []qres {
+func oraclePass(R string, qs querySet) []qres {
 	k := kernelSide{}
 
 	var out []qres
@@ -721,7 +909,7 @@ func oraclePass(R string, u universe) []qres {
 	}
 
 	// Glob
-	for _, segs := range patterns(u.MaxSeg) {
+	for _, segs := range qs.Pats {
 		j := strings.Join(segs, "/")
 		add(query{Func: "Glob", Arg: R + "/" + j, Segs: segs})
 
@@ -735,17 +923,15 @@ func oraclePass(R string, u universe) []qres {
 	}
 
 	// ReadDir
-	paths3 := candidatePaths(u, 3)
-
 	add(query{Func: "ReadDir", Arg: R})
 
-	for _, p := range paths3 {
+	for _, p := range qs.Dirs {
 		add(query{Func: "ReadDir", Arg: R + "/" + p})
 	}
 
 	add(query{Func: "ReadDir", Arg: R + "/nope"})
 
-	for _, p := range []string{".", "a", "a/b", ""} {
+	for _, p := range qs.RelDirs {
 		add(query{Func: "ReadDir", Arg: p, Rel: true})
 	}
 
@@ -758,7 +944,7 @@ func oraclePass(R string, u universe) []qres {
 	roots := []root{{R, false}}
 	missing := false
 
-	for _, p := range candidatePaths(u, 2) {
+	for _, p := range qs.Roots {
 		if _, err := os.Lstat(R + "/" + p); err != nil {
 			if missing {
 				continue
@@ -770,7 +956,11 @@ func oraclePass(R string, u universe) []qres {
 		roots = append(roots, root{R + "/" + p, false})
 	}
 
-	roots = append(roots, root{R + "/nope", false}, root{".", true}, root{"a", true})
+	roots = append(roots, root{R + "/nope", false})
+
+	for _, p := range qs.RelRoots {
+		roots = append(roots, root{p, true})
+	}
 
 	for _, r := range roots {
 		base := add(query{Func: "WalkDir", Arg: r.p, Rel: r.rel, Fam: "none", Idx: -1})
@@ -797,6 +987,21 @@ func oraclePass(R string, u universe) []qres {
 	}
 
 	return out
+}
+
+// helperPaths lists the arguments of the helper checks.
+func (qs querySet) helperPaths(R string) []string {
+	var hp []string
+
+	for _, p := range qs.HelperArg {
+		hp = append(hp, strings.Replace(p, "$R", R, 1))
+	}
+
+	for _, p := range qs.Helpers {
+		hp = append(hp, R+"/"+p)
+	}
+
+	return hp
 }
 
 // classK classifies the object a kernel-namespace path names, on the real
